@@ -565,6 +565,15 @@ def r177(P, rep):
                            where='preprocess.c:%d' % c.line)
         if nput == 0:
             rep.undecided('R17.7', 'preprocess.c:pragma-once-table', 'no writer of the `#pragma once` table found')
+    # order of the first writers: predefined macros, then the command line (so that -U deletes and -D overwrites a predefined name)
+    try:
+        from ..report import Report, reissue
+        from . import c10 as _c10
+        sub = Report('C10')
+        _c10.r109_macro_table_order(P, sub)
+        reissue(rep, 'R17.7', sub, 'a deletion (-U) or a later definition (-D) would not be the last operation on its name: ')
+    except ImportError:
+        pass
     # add_macro installs a fresh, fully initialised Macro
     pu = P.unit('preprocess.c')
     if 'add_macro' not in pu.functions or 'undef_macro' not in pu.functions or 'find_macro' not in pu.functions:
